@@ -2832,14 +2832,16 @@ class LinearOperator(object):
         if isinstance(row_index, int):
             if not -self.size(-2) <= row_index < self.size(-2):
                 raise IndexError(f"index {row_index} is out of bounds for dimension -2 with size {self.size(-2)}")
-            # (-1 + 1 would give the empty slice -1:0, so the last row needs an open upper bound)
-            row_index = slice(row_index, (row_index + 1) or None, None)
-            squeeze_row = True
+            if not row_col_are_absorbed:  # (absorbed into the tensor indices, an int stays an int)
+                # (-1 + 1 would give the empty slice -1:0, so the last row needs an open upper bound)
+                row_index = slice(row_index, (row_index + 1) or None, None)
+                squeeze_row = True
         if isinstance(col_index, int):
             if not -self.size(-1) <= col_index < self.size(-1):
                 raise IndexError(f"index {col_index} is out of bounds for dimension -1 with size {self.size(-1)}")
-            col_index = slice(col_index, (col_index + 1) or None, None)
-            squeeze_col = True
+            if not row_col_are_absorbed:
+                col_index = slice(col_index, (col_index + 1) or None, None)
+                squeeze_col = True
 
         # Call self._getitem - now that the index has been processed
         # Alternatively, if we're using tensor indices and losing dimensions, use self._get_indices
